@@ -318,6 +318,7 @@ func runC05(r *Run) {
 	r.Extra["built"], r.Extra["rejected"] = nbuilt, nrej
 	c05Entry(r)
 	c05SameName(r)
+	c05FarFields(r)
 	// layouts of random struct types against the model (sizeof / alignof / offsets)
 	for i := 0; i < r.N(150, 3000); i++ {
 		g := genStructType(r.Rng, TypeGenCfg{MaxDepth: 1 + r.Rng.Intn(3), Dynamic: true, AllowUnsupported: i%3 == 0})
@@ -328,6 +329,86 @@ func runC05(r *Run) {
 		}
 		r.Add(cApp("KLayout", g.Coq(), cZ(int64(rt.Size())), cZ(int64(rt.Align())), cList(offs)), map[string]any{"type": g.Coq()}, "layout/"+g.Coq())
 		r.Count("layout/random")
+	}
+}
+
+// c05FarFields: destination structs whose fields sit at offsets beyond what 8, 16 or 24 bits
+// hold (a large array field in front of them): every store lands in its own field, the array
+// (not named in the schema) and the guard behind the last field stay as they were.  Layout
+// against the model for every size; the decode is judged directly (the value of a 16 MiB array
+// is not printed as a term).
+func c05FarFields(r *Run) {
+	sizes := []int{200, 65536 - 8, 65536, 70000, 1<<24 + 8}
+	if r.Thorough() {
+		sizes = append(sizes, 1<<26+24)
+	}
+	s := avro.Schema{Type: "record", Object: &avro.SchemaObject{Name: "Far", Fields: []avro.SchemaRecordField{
+		{Name: "head", Type: avro.Schema{Type: "long"}}, {Name: "tail", Type: avro.Schema{Type: "long"}},
+		{Name: "str", Type: avro.Schema{Type: "string"}}, {Name: "small", Type: avro.Schema{Type: "int"}}}}}
+	for _, n := range sizes {
+		st := reflect.StructOf([]reflect.StructField{
+			{Name: "Head", Type: reflect.TypeOf(int64(0)), Tag: `json:"head"`},
+			{Name: "Pad", Type: reflect.ArrayOf(n, reflect.TypeOf(byte(0))), Tag: `json:"pad"`},
+			{Name: "Tail", Type: reflect.TypeOf(int64(0)), Tag: `json:"tail"`},
+			{Name: "Str", Type: reflect.TypeOf(""), Tag: `json:"str"`},
+			{Name: "Small", Type: reflect.TypeOf(int16(0)), Tag: `json:"small"`},
+			{Name: "Post", Type: reflect.TypeOf([64]byte{}), Tag: `json:"post"`},
+		})
+		g := gtOf(st)
+		desc := map[string]any{"go_type": fmt.Sprintf("struct{Head int64; Pad [%d]byte; Tail int64; Str string; Small int16; Post [64]byte}", n), "schema": schemaJSON(s)}
+		r.Count("far-fields")
+		offs := make([]string, st.NumField())
+		for i := range offs {
+			offs[i] = cZ(int64(st.Field(i).Offset))
+		}
+		r.Add(cApp("KLayout", g.Coq(), cZ(int64(st.Size())), cZ(int64(st.Align())), cList(offs)), desc, fmt.Sprintf("layout/far/%d", n))
+		c, err := schemaCodec(s, g)
+		if err != nil {
+			r.Fail(-1, "compat-build", fmt.Sprintf("Schema.Codec refuses a struct with a %d-byte array field in front of the decoded fields: %v", n, err), desc)
+			continue
+		}
+		dst := reflect.New(st)
+		fill := func(f reflect.Value) {
+			b := unsafe.Slice((*byte)(f.Addr().UnsafePointer()), f.Type().Size())
+			for i := range b {
+				b[i] = canary[i%4]
+			}
+		}
+		fill(dst.Elem().Field(1))
+		fill(dst.Elem().Field(5))
+		bs := append(append(append(specVarint(0x1122334455), specVarint(-0x66778899aa)...), 6, 'x', 'y', 'z'), specVarint(-12345)...)
+		res := func() (cls string) {
+			defer func() {
+				if p := recover(); p != nil {
+					cls = fmt.Sprintf("panic: %v", p)
+				}
+			}()
+			if err := c.Read(avro.NewReadBuf(bs), dst.UnsafePointer()); err != nil {
+				return "err: " + err.Error()
+			}
+			return "ok"
+		}()
+		firstBad := func(f reflect.Value) int {
+			b := unsafe.Slice((*byte)(f.Addr().UnsafePointer()), f.Type().Size())
+			for i := range b {
+				if b[i] != canary[i%4] {
+					return i
+				}
+			}
+			return -1
+		}
+		e := dst.Elem()
+		switch {
+		case res != "ok":
+			r.Fail(-1, "in-range-rejected", "decoding into a struct with far-away fields: "+res, desc)
+		case firstBad(e.Field(1)) >= 0:
+			r.Fail(-1, "store-outside-destination", fmt.Sprintf("the array field in front of the decoded fields (not in the schema) was modified at byte %d", firstBad(e.Field(1))), desc)
+		case firstBad(e.Field(5)) >= 0:
+			r.Fail(-1, "store-outside-destination", fmt.Sprintf("the guard behind the last field was modified at byte %d", firstBad(e.Field(5))), desc)
+		case e.Field(0).Int() != 0x1122334455 || e.Field(2).Int() != -0x66778899aa || e.Field(3).String() != "xyz" || e.Field(4).Int() != -12345:
+			r.Fail(-1, "store-outside-destination", fmt.Sprintf("decoded {Head:%#x Tail:%#x Str:%q Small:%d}, the record holds {0x1122334455, -0x66778899aa, \"xyz\", -12345}: a store went elsewhere",
+				e.Field(0).Int(), e.Field(2).Int(), e.Field(3).String(), e.Field(4).Int()), desc)
+		}
 	}
 }
 
